@@ -10,7 +10,8 @@ use clvm_rs::allocator::{Allocator, NodePtr, SExp};
 use clvm_rs::cost::Cost;
 use clvm_rs::reduction::{Reduction, Response};
 
-use crate::classic::clvm::__type_compatibility__::{bi_one, bi_zero};
+use crate::classic::clvm::__type_compatibility__::{bi_one, bi_zero, Bytes, BytesFromType};
+use crate::classic::clvm::casts::bigint_from_bytes;
 use crate::classic::clvm::sexp::{
     atom, enlist, equal_to, first, fold_m, map_m, non_nil, proper_list,
 };
@@ -22,7 +23,7 @@ use crate::classic::clvm_tools::stages::stage_0::TRunProgram;
 use crate::classic::clvm_tools::stages::stage_2::helpers::quote;
 use crate::classic::clvm_tools::stages::stage_2::operators::AllocatorRefOrTreeHash;
 
-use crate::util::{number_from_u8, u8_from_number};
+use crate::util::{u8_from_number, Number};
 
 #[derive(Clone)]
 pub struct DoOptProg {}
@@ -215,6 +216,13 @@ fn cons_r(allocator: &mut Allocator, args: NodePtr) -> Result<NodePtr, EvalErr> 
     }
 }
 
+/// Environment paths are unsigned: the consensus evaluator reads a path atom
+/// as an unsigned big-endian number whatever its width or leading bits, so
+/// 0x80 is path 128 and 0xffff is path 65535 (not -128 and -1).
+fn path_number_from_u8(v: &[u8]) -> Number {
+    bigint_from_bytes(&Bytes::new(Some(BytesFromType::Raw(v.to_vec()))), None)
+}
+
 fn path_from_args(
     allocator: &mut Allocator,
     sexp: NodePtr,
@@ -224,8 +232,12 @@ fn path_from_args(
         SExp::Atom => {
             // Only sexp in scope.
             let atom = allocator.atom(sexp);
-            let v = number_from_u8(atom.as_ref());
-            if v <= bi_one() {
+            let v = path_number_from_u8(atom.as_ref());
+            if v == bi_zero() {
+                // Path 0 (nil or an all-zero atom) evaluates to nil in any
+                // environment, so it is not a reference to the arguments.
+                Ok(NodePtr::NIL)
+            } else if v == bi_one() {
                 Ok(new_args)
             } else {
                 let sexp = allocator.new_atom(&u8_from_number(v.clone() >> 1).to_vec())?;
@@ -527,7 +539,7 @@ fn path_optimizer(
             match first
                 .get("atom")
                 .and_then(|a| atom(allocator, *a).ok())
-                .map(|atom| number_from_u8(&atom))
+                .map(|atom| path_number_from_u8(&atom))
             {
                 Some(atom) => {
                     let node = NodePath::new(Some(atom)).add(NodePath::new(None).first());
@@ -540,7 +552,7 @@ fn path_optimizer(
             match rest
                 .get("atom")
                 .and_then(|a| atom(allocator, *a).ok())
-                .map(|atom| number_from_u8(&atom))
+                .map(|atom| path_number_from_u8(&atom))
             {
                 Some(atom) => {
                     let node = NodePath::new(Some(atom)).add(NodePath::new(None).rest());
